@@ -347,6 +347,7 @@ class Body:
         self.defs = {}      # local -> list of (bb, idx|'t', kind, payload)
         self.pdefs = {}     # local -> list of partial defs (projection writes)
         self.uses_addr = set()  # locals whose address is taken mutably
+        self.deref_writes = {}  # local (a pointer) -> writes through it
         for i in sorted(self.reach):
             b = self.blocks[i]
             for si, s in enumerate(b["stmts"]):
@@ -354,6 +355,8 @@ class Body:
                     pl = s["place"]
                     if not pl["p"]:
                         self.defs.setdefault(pl["l"], []).append((i, si, "rv", s["rv"]))
+                    elif pl["p"][0]["k"] == "deref":
+                        self.deref_writes.setdefault(pl["l"], []).append((i, si, "rv", s))
                     else:
                         self.pdefs.setdefault(pl["l"], []).append((i, si, "rv", s))
                     rv = s["rv"]
@@ -368,6 +371,8 @@ class Body:
                 pl = t["dest"]
                 if not pl["p"]:
                     self.defs.setdefault(pl["l"], []).append((i, "t", "call", t))
+                elif pl["p"][0]["k"] == "deref":
+                    self.deref_writes.setdefault(pl["l"], []).append((i, "t", "call", t))
                 else:
                     self.pdefs.setdefault(pl["l"], []).append((i, "t", "call", t))
 
